@@ -41,6 +41,15 @@ CHECKS = {
     "C09": ("5/C09", "PBT against the explicit neighbour / sum-of-products definition",
             "Pre/post images of boolean and distance-valued sets under relations of every reduction rule, and VM/MV products of int/real vectors and matrices, compared pointwise with the explicit definition.",
             "explicit definition in the harness; tolerance for reals scaled by the summed magnitudes"),
+    "C13": ("5/C13", "stateful PBT: held edges re-evaluated under the new variable order + structural audit",
+            "MT set/relation and EV+ set forests, all 8 heuristics and both swap methods, uniformly random target permutations, several held edges and warm compute tables; after reorderVariables() every held edge must evaluate to its table with minterm positions taken from the forest's new order, the forest must pass the structural audit, and other forests over the domain must be untouched.",
+            "model indexed by variable, not level; RANDOM heuristic seeded through the guarded hook; LEVEL swap on relations is never performed by the library (recorded observation) and is not executed"),
+    "C14": ("5/C14", "round-trip PBT through the exchange-file writer/reader",
+            "0-8 roots incl. shared sub-graphs, terminal and repeated roots written and read back into the same forest, another forest of the same kind with other policies, or a forest created from the file; same number/order of roots, equal tables, identical edges in the writing forest, audit + exact reference recount of the receiving forest.",
+            "in-memory streams; reals compared with tolerance; relation files from non-identity-reduced writers read via mdd_reader(domain) are a recorded known finding"),
+    "C15": ("5/C15", "PBT against the sorted member list",
+            "Random boolean sets incl. empty and full, converted to index sets: members in lexicographic order map to 0..n-1, others to +infinity; getElement(i) returns member i or false outside 0..n-1; stored cardinalities equal the true member counts in every node.",
+            "lexicographic order by level"),
     "C20": ("5/C20", "PBT: partitioned saturation vs explicit closure under the union, and vs monolithic reachability (edge identity)",
             "1-8 random events fed to SATURATION_FORWARD by events and by levels with every splitting option, compared with the explicit closure under the union of the events and with the monolithic result in the same forest.",
             "explicit closure in the harness; identity-reduced relation forest (what the operation supports); forward direction"),
